@@ -347,3 +347,46 @@ def run(repo: Repo, rep: Report) -> None:
     rep.ob("C17.e-dual-map-pairing", mem, "Memory.bind", "Memory.bind == SimpleMemory.bind (normalised statements)", same,
            "identical" if same else "the two in-memory stores' bind() differ: %s" % [
                (a, b) for a, b in zip(bodies["Memory"], bodies["SimpleMemory"]) if a != b][:2], node=mem.func("Memory.bind"))
+    memo_tuple_coherence(repo, rep)
+
+
+def memo_tuple_coherence(repo: Repo, rep: Report) -> None:
+    """(f) the memoised (prefix, namespace, local) triple is internally coherent"""
+    ns = repo.mod("rdflib.namespace")
+    rep.rule("C17.f-memo-tuple-coherent",
+             "in compute_qname / compute_qname_strict the tuple written to a memo is (P, N, L) where, inside the computing block, every "
+             "`P = self.store.prefix(X)` has X == N, every `self.bind(P, Y)` has Y == N, and N, L come from the same split of the IRI: the "
+             "prefix returned for an IRI is the prefix bound to the namespace returned with it", floor=4)
+    for mname in ("compute_qname", "compute_qname_strict"):
+        f = ns.func("NamespaceManager." + mname)
+        for n in own_nodes(f):
+            if not (isinstance(n, ast.Assign) and isinstance(n.targets[0], ast.Subscript) and _self_attr(n.targets[0].value) and isinstance(n.value, ast.Tuple) and len(n.value.elts) == 3):
+                continue
+            P, N, L = [norm(e) for e in n.value.elts]
+            # the enclosing computing block
+            blk = None
+            for p in ns.parents(n):
+                if isinstance(p, ast.If) and any(n is x for s in p.body for x in ast.walk(s)) and "not in" in norm(p.test):
+                    blk = p
+            if blk is None:
+                raise AnalysisError("%s: memo write is not inside an `if uri not in memo` block" % mname)
+            stmts = [x for s in blk.body for x in ast.walk(s)]
+            for x in stmts:
+                if isinstance(x, ast.Assign) and norm(x.targets[0]) == P and isinstance(x.value, ast.Call) and norm(x.value.func) == "self.store.prefix":
+                    a = norm(x.value.args[0])
+                    ok = a == N
+                    rep.ob("C17.f-memo-tuple-coherent", ns, "NamespaceManager." + mname, x, ok,
+                           "prefix looked up for the namespace that is returned with it" if ok else
+                           "the prefix is looked up for %s but the tuple returns namespace %s: prefix and namespace of the answer do not belong together (namespace + local != IRI / prefix bound elsewhere)" % (a, N), node=x)
+                if isinstance(x, ast.Call) and norm(x.func) == "self.bind" and len(x.args) >= 2 and norm(x.args[0]) == P:
+                    b = norm(x.args[1])
+                    ok = b == N
+                    rep.ob("C17.f-memo-tuple-coherent", ns, "NamespaceManager." + mname, x, ok,
+                           "generated prefix bound to the returned namespace" if ok else "a prefix is generated and bound for %s but the tuple returns namespace %s" % (b, N), node=x)
+            # N and L from the same split
+            splits = [x for x in stmts if isinstance(x, ast.Assign) and isinstance(x.targets[0], ast.Tuple) and isinstance(x.value, ast.Call) and norm(x.value.func) == "split_uri"]
+            for sp in splits:
+                tg = [norm(e) for e in sp.targets[0].elts]
+                ok = tg == [N, L]
+                rep.ob("C17.f-memo-tuple-coherent", ns, "NamespaceManager." + mname, sp, ok,
+                       "namespace and local name of the tuple come from one split" if ok else "split_uri unpacks into %s but the tuple returns (%s, %s)" % (tg, N, L), node=sp)
